@@ -21,7 +21,7 @@ import random
 from common import *
 import budget_common as B
 
-COQ_FILES = ['Lib/Str.v', 'C11/Model.v', 'C11/Proofs.v', 'C16/Model.v', 'C16/Proofs.v', 'C16/Props.v']
+COQ_FILES = ['Lib/Str.v', 'C11/Model.v', 'C11/Proofs.v', 'C16/Model.v', 'C16/Proofs.v', 'C16/Lookup.v', 'C16/LookupProofs.v', 'C16/Props.v']
 IMPL = os.path.join(os.path.dirname(os.path.abspath(__file__)), 'impl_c16.py')
 PROP = 'C16'
 PROBE_SUFFIX = ' ZQ7'
@@ -337,6 +337,50 @@ def eval_budget(job, only=None):
                 res['fails'].append({'law': 'explain-merchant!=up', 'sig': sig, 'check': {'type': 'merchant', 'name': m['name']},
                                      'detail': f"explain {m['name']!r}: {got_m if got_m else ex['stdout'][:120] + ex['stderr'][:120]} vs up {want_m}"})
 
+        # ---------------- what a query names: the lookup cascade of cmd_explain (C16/Lookup.v), observed by the shape of the answer
+        if spec.get('lookup_queries') and only is None:
+            keys, descs = [], []
+            for ps in tb['per_source']:
+                for row in ps.get('rows', []):
+                    if row[4] not in keys:
+                        keys.append(row[4])
+                    descs.append((row[4], row[0]))
+            qs = []
+            for m in keys[:4]:
+                qs += [m, m.upper(), m.lower(), m[:3], m[1:]]
+            for d in [d for _, d in descs][:2]:
+                qs += [d, d.lower()[2:], d.split()[0]]
+            qs += ['QQQ ZZZ 77', 'a', ' ']
+            seen = []
+            for q in qs:
+                if q in seen or not q or not q.isascii() or q.startswith('-'):
+                    continue
+                seen.append(q)
+            res['lookup'] = {'keys': keys, 'descs': descs, 'obs': []}
+            for q in seen[:14]:
+                rc, out, err = B.run_cli(['explain', q, cfg, '--format', 'json'])
+                res['n_cli'] += 1
+                names = re.findall(r'^  "name": "((?:[^"\\\\]|\\\\.)*)",?$', out, re.M)
+                if out.startswith('Merchants matching'):
+                    route = ['Partial', sorted(json.loads('"' + n + '"') for n in names)]
+                elif out.startswith('Transactions matching'):
+                    route = ['TxnSearch']
+                elif out.lstrip().startswith('{') and '"is_unknown"' in out:
+                    route = ['Describe']
+                elif names and out.lstrip().startswith('{'):
+                    n0 = json.loads('"' + names[0] + '"')
+                    route = ['Exact', n0] if n0 == q else ['CaseInsens', n0]
+                elif not out.strip() and 'No merchant matching' in err:
+                    route = ['Describe']      # explain_description said Unknown, then the fuzzy suggestion
+                else:
+                    route = ['?', out[:80] + err[:80]]
+                res['lookup']['obs'].append([q, route])
+                res['stats']['lookup_queries'] += 1
+                # direct oracle: the exact name of a merchant is answered with that merchant
+                if q in keys and route != ['Exact', q]:
+                    res['fails'].append({'law': 'explain-exact-name', 'sig': None, 'check': {'type': 'lookup', 'query': q},
+                                         'detail': f'explain {q!r} (an exact merchant name) answered {route}'})
+
         # ---------------- explain "<raw description>" --amount vs up on the one-transaction budget
         rules = tb['rules']
         for pi, pr in enumerate(probes if only in (None, 'probe') else []):
@@ -392,7 +436,7 @@ def eval_budget(job, only=None):
 
 # ------------------------------------------------------------------ model side (Coq)
 HEADER = '''From Coq Require Import String List Bool Arith NArith.
-From Tally Require Import Lib.Str C11.Model C16.Model.
+From Tally Require Import Lib.Str C11.Model C16.Model C16.Lookup.
 Import ListNotations.
 Open Scope nat_scope.
 Open Scope list_scope.
@@ -435,6 +479,17 @@ Definition okp (c : list (source unit Cont) * list (nat * (nat * nat)) * list (n
   (geqb (discover p_parse p_classify p_unknown p_group b) d_obs
    && geqb (up_unknowns p_parse p_supp p_classify p_unknown p_group b) u_obs
    && Bool.eqb (no_live_supp b) g)%bool.
+(* ---- the lookup cascade *)
+Fixpoint sleqb (a b : list string) := match a, b with [], [] => true | x :: r, y :: s => (String.eqb x y && sleqb r s)%bool | _, _ => false end.
+Definition sameset (a b : list string) := (Nat.eqb (length a) (length b) && forallb (fun x => mem x b) a)%bool.
+Definition reqb (a b : Lookup.route) : bool :=
+  match a, b with
+  | Lookup.Exact x, Lookup.Exact y | Lookup.CaseInsens x, Lookup.CaseInsens y => String.eqb x y
+  | Lookup.Partial x, Lookup.Partial y => sameset x y
+  | Lookup.TxnSearch, Lookup.TxnSearch | Lookup.Describe, Lookup.Describe => true
+  | _, _ => false end.
+Definition okl (c : list string * list (string * string) * list (string * Lookup.route)) : bool :=
+  let '(keys, descs, obs) := c in forallb (fun o => reqb (Lookup.lookup (fst o) keys descs) (snd o)) obs.
 Fixpoint failing {A} (ok : A -> bool) (i : nat) (l : list A) : list nat :=
   match l with [] => [] | c :: r => if ok c then failing ok (Datatypes.S i) r else i :: failing ok (Datatypes.S i) r end.
 '''
@@ -499,6 +554,19 @@ def coq_pipeline_case(spec, tb, discover, up_unknown):
         return None
     inert = all((not s['supplemental']) or s['state'] != 'present' for s in spec['sources'])
     return f"([{'; '.join(srcs)}], {gd}, {gu}, {'true' if inert else 'false'})"
+
+
+def coq_lookup_case(lk):
+    def rt(r):
+        if r[0] in ('Exact', 'CaseInsens'):
+            return f'Lookup.{r[0]} {coq_str(r[1])}'
+        if r[0] == 'Partial':
+            return 'Lookup.Partial [' + '; '.join(coq_str(x) for x in r[1]) + ']'
+        return 'Lookup.' + r[0]
+    if any(r[0] == '?' for _, r in lk['obs']):
+        return None
+    return ('([' + '; '.join(coq_str(k) for k in lk['keys']) + '], [' + '; '.join(f'({coq_str(a)}, {coq_str(b)})' for a, b in lk['descs'])
+            + '], [' + '; '.join(f'({coq_str(q)}, {rt(r)})' for q, r in lk['obs']) + '])')
 
 
 def model_check(rows, okname, name):
@@ -641,14 +709,19 @@ def main(tier):
 
     B.clean_work(PROP)
     rnd = random.Random(run.seed * 104729 + 16)
-    n = 44 if tier == 'quick' else 800
+    n = 36 if tier == 'quick' else 800
     jobs = [(k, spec, probes) for k, (spec, probes) in enumerate(corpus())]
+    for k, spec, _ in jobs:
+        if k % 2 == 0 or spec.get('ask_all'):
+            spec['lookup_queries'] = True
     n += len(jobs)
     for k in range(len(jobs), n):
         spec = B.gen_budget(rnd, profile=[None, 'supp', 'nosupp', None][k % 4])
         for s in spec['sources']:       # C16 is about classification; keep every file readable
             if s['state'] != 'present' and k % 8 != 7:
                 s['state'] = 'present'
+        if k % 9 == 0 or tier == 'thorough':
+            spec['lookup_queries'] = True
         jobs.append((k, spec, gen_probes(spec, rnd, 3 if tier == 'quick' else 5)))
     results = B.pmap(eval_budget, jobs)
     n_cli = sum(r['n_cli'] for r in results)
@@ -679,7 +752,7 @@ def main(tier):
                                                   'n_failing': len(items), 'shrunk_from': len(json.dumps(spec))}, signature=sig)
 
     # ---- model vs implementation inside Coq
-    prow, drow = [], []
+    prow, drow, lrow = [], [], []
     unmapped = 0
     if res['ok']:
         for r in results:
@@ -694,7 +767,16 @@ def main(tier):
                     prow.append((c, r['k']))
             for o in r['probe_obs']:
                 drow.append((coq_probe_case(spec, r['tables'], o), r['k'], o['probe']))
-        for rows, okname, nm, what in ((prow, 'okp', 'C16_pipe', 'discover/up pipelines'), (drow, 'okd', 'C16_desc', 'explain_description/up_classify')):
+            if r.get('lookup'):
+                c = coq_lookup_case(r['lookup'])
+                if c is None:
+                    unmapped += 1
+                    broken.append({'kind': 'broken-correspondence', 'obligation': 'model_vs_impl(explain lookup cascade)',
+                                   'detail': {'budget': spec, 'unrecognised answer': [o for o in r['lookup']['obs'] if o[1][0] == '?'][:2]}})
+                else:
+                    lrow.append((c, r['k'], None))
+        for rows, okname, nm, what in ((prow, 'okp', 'C16_pipe', 'discover/up pipelines'), (drow, 'okd', 'C16_desc', 'explain_description/up_classify'),
+                                       (lrow, 'okl', 'C16_lookup', 'explain lookup cascade')):
             bad, err = model_check([x[0] for x in rows], okname, nm)
             if bad is None:
                 broken.append({'kind': 'broken-correspondence', 'obligation': f'model_vs_impl({what})', 'detail': 'cases.v did not evaluate: ' + err})
@@ -721,12 +803,12 @@ def main(tier):
         if r.get('up_unknown') and r.get('discover') is not None and len(jobs[r['k']][1]['sources']) >= 2:
             nontrivial.add(json.dumps(jobs[r['k']][1], sort_keys=True))
     run.cov.update({
-        'evaluations': n_cli + len(prow) + len(drow), 'distinct_nontrivial': len(nontrivial),
+        'evaluations': n_cli + len(prow) + len(drow) + len(lrow), 'distinct_nontrivial': len(nontrivial),
         'rule': 'C11 budget generator (profiles: mixed / with a supplemental source queried by a rule / without); per budget: discover vs '
                 'up Unknowns, explain <merchant> for <= 2 merchants, explain "<description>" --amount for 3 fresh descriptions vs up on the '
                 'one-transaction budget; non-trivial = distinct (rules, probe) with >= 2 matching rules, plus distinct multi-source budgets with '
                 'a non-empty Unknown set',
-        'budgets': n, 'cli_runs_fresh_process': n_cli, 'coq_pipeline_cases': len(prow), 'coq_description_cases': len(drow),
+        'budgets': n, 'cli_runs_fresh_process': n_cli, 'coq_pipeline_cases': len(prow), 'coq_description_cases': len(drow), 'coq_lookup_cases': len(lrow), 'coq_lookup_queries': sum(len(r['lookup']['obs']) for r in results if r.get('lookup')),
         'unmapped_cases': unmapped, 'counts': dict(stats),
         'oracle_failures_by_law': {f'{law} [{sig or "VIOLATION"}]': len(v) for (sig, law), v in groups.items()},
         'samples': [{'budget': jobs[0][1], 'probes': jobs[0][2]}]})
